@@ -47,6 +47,33 @@ def make_gateway(group, kind, execmodel, python=None, tag="g"):
     if kind == "socket_gevent_host":  # a socket server hosted by a gevent gateway: the worker's reads and writes are cooperative
         m = group.makegateway(f"popen//execmodel=gevent//id={tag}m")
         return group.makegateway(f"socket//installvia={m.id}//execmodel=gevent//id={tag}")
+    if kind == "socket_standalone_second":
+        # the stand-alone server script (python socketserver.py host:port, serving one connection after the other): an earlier gateway
+        # changed the directory and went away; the gateway under test is the next connection to the same server
+        import re
+        import subprocess
+        import tempfile
+        import time
+
+        import execnet.script.socketserver as ss
+
+        logdir = tempfile.mkdtemp(prefix="verif-ss-")
+        log = open(os.path.join(logdir, "server.log"), "wb")
+        proc = subprocess.Popen([sys.executable, "-u", ss.__file__, "127.0.0.1:0"], stdout=log, stderr=subprocess.STDOUT,
+                                env={**os.environ, "PYTHONPATH": os.path.dirname(os.path.dirname(os.path.dirname(ss.__file__)))})
+        group._verif_cleanup = getattr(group, "_verif_cleanup", []) + [(proc, logdir)]
+        port = None
+        for _ in range(400):
+            m = re.search(r"\('127\.0\.0\.1', (\d+)\)", open(log.name).read())
+            if m:
+                port = int(m.group(1))
+                break
+            time.sleep(0.025)
+        first = group.makegateway(f"socket=127.0.0.1:{port}//chdir={logdir}/elsewhere//id={tag}first")
+        assert first.remote_exec("import os\nchannel.send(os.getcwd())").receive(20).endswith("elsewhere")
+        first.exit()
+        first.join(10)
+        return group.makegateway(f"socket=127.0.0.1:{port}//execmodel={execmodel}//id={tag}")
     if kind == "ssh":  # needs an `ssh` on PATH (the checks put a stand-in there that hands the command line to /bin/sh, as sshd does)
         return group.makegateway(f"ssh=fakehost//python={py}//execmodel={execmodel}//id={tag}")
     if kind == "vagrant":
@@ -72,6 +99,8 @@ def remote_function(channel, a, b=None, c=()):
 
 def run_programs(gw, rng, big=False):
     T = []
+    # 0. the worker starts where its process was launched from (here: the initiator's directory), whatever happened there before
+    T.append(["cwd", gw.remote_exec("import os\nchannel.send(os.getcwd())").receive(20) == os.getcwd()])
     # 1. echo of every payload type and size
     ch = gw.remote_exec("for x in channel: channel.send(x)")
     for v in payloads(rng, big):
